@@ -1,9 +1,14 @@
 """C11: the pool of definitions (one Guppy module text) and their static description.
 
-DEFS: name -> {"fails": None | "check" | "trace", "args": bool, "deps": [...own-module definitions the
-engine parses/checks when this one is the entry (transitively closed set is computed by the spec)]}
+OWN: the definitions of the pool module the engine-state projection reports (the static description of
+their references lives in spec/Engine.tla); ENTRIES: the ones used as entry points of public calls.
 """
 from __future__ import annotations
+
+OWN = ["plain", "caller", "main0", "bad_type", "calls_bad", "ct_good", "ct_bad", "closure", "first", "use_generic",
+       "mono", "use_mono", "Pt", "use_struct", "ov_int", "ov_float", "over", "use_over", "loops", "n"]
+ENTRIES = ["plain", "caller", "main0", "bad_type", "calls_bad", "ct_good", "ct_bad", "closure", "use_generic",
+           "use_mono", "use_struct", "use_over", "loops"]
 
 PRELUDE = """\
 from guppylang import guppy, comptime
@@ -74,6 +79,19 @@ def first(xs: array[int, n] @ owned) -> int:
 @guppy
 def use_generic(a: int) -> int:
     return first(array(a, 2)) + first(array(a, 3, 4))
+
+
+@guppy
+def mono(k: int @ comptime, x: int) -> int:
+    s = x
+    for i in range(3):
+        s += k
+    return s
+
+
+@guppy
+def use_mono(a: int) -> int:
+    return mono(3, a) + mono(4, a)
 
 
 @guppy.struct
